@@ -460,13 +460,14 @@ def parent_ctor_guard(ctx, rep: Report, rule: str):
     rep.rules[rule] = "parent constructors are invoked only for classes that define their own __init__"
     from ..scenarios import core_impl
     fi = core_impl(ctx.H, "init").impl
-    calls = [n for n in walk_own(fi.node) if isinstance(n, ast.Call) and isinstance(n.func, ast.Attribute) and n.func.attr == "__init__"
+    from .base import walk_own_all
+    calls = [(f, n) for f, n in walk_own_all(ctx.p, fi) if isinstance(n, ast.Call) and isinstance(n.func, ast.Attribute) and n.func.attr == "__init__"
              and isinstance(n.func.value, ast.Name)]
     if not calls:
         raise AnalysisError(f"{rule}: no parent constructor call found in InitMethod.init")
-    for c in calls:
+    for f_, c in calls:
         var = c.func.value.id
-        conds = " && ".join(_guards_of(fi.node, c))
+        conds = " && ".join(_guards_of(f_.node, c))
         ok = (f"'__init__' in {var}.__dict__" in conds or f"'__init__' in vars({var})" in conds) and "not ('__init__'" not in conds
         rep.oblige(rule, f"InitMethod.init: {var}.__init__", ok, conds[:120])
         if not ok:
